@@ -131,6 +131,7 @@ type Result struct {
 	Provoked bool // the program contains an operation that may legitimately be refused
 	Sparse   bool
 	PreFilter bool
+	HugeBatch bool // a WriteCompressed call with more than 10000 objects was accepted
 }
 
 type runner struct {
@@ -664,6 +665,9 @@ func (x *runner) compressed(plan *Plan) bool {
 	}
 	cls, text := x.call(func() error { return x.w.WriteCompressed(refs, objs...) })
 	x.tok("%s %d", sb.String(), x.big())
+	if cls == "" && len(objs) > 10000 && x.cfg.XRefStream() {
+		x.res.HugeBatch = true
+	}
 	if cls == "" {
 		for i := range objs {
 			x.noteWritten(refs[i], snaps[i])
